@@ -58,9 +58,11 @@ def check(run):
             ops.append(dict(op="Add", arg=v))
             vals.append(v)
         run.rng.shuffle(vals)
-        for v in vals:
-            ops.append(dict(op=run.rng.choice(["Remove", "Remove", "Index"]), arg=v))
-        ops += [dict(op="RemoveAt", arg=0)] * 5 + [dict(op="Add", arg=dom[0])]
+        for j, v in enumerate(vals):      # remove everything again (down through every shrink threshold), looking things up on the way
+            if j % 3 == 0:
+                ops.append(dict(op="Index", arg=v))
+            ops.append(dict(op="Remove" if j % 4 else "RemoveAt", arg=v if j % 4 else 0))
+        ops += [dict(op="RemoveAt", arg=0)] * 3 + [dict(op="Add", arg=dom[0])]
         plans.append(mkplan(mode, ops, ordered=False))
     segs = execute(run, plans)
     if len(segs) != len(plans):
